@@ -118,10 +118,11 @@ func asyncExec(c AsyncCase, choices []int32) (RunOut, *Violation) {
 			}
 		})
 		var werr error
+		var cb callerBuf
 		for i, n := range c.Writes {
 			chunk := payload(uint64(i)+1, n)
 			writing = true
-			m, err := rw.Write(chunk)
+			m, err := cb.write(rw, chunk)
 			writing = false
 			if err != nil {
 				werr = err
